@@ -216,6 +216,30 @@ def gen_spec(rng: random.Random, big: bool) -> dict:
     return _rename(spec, rng)
 
 
+def fanout_drop_specs(rng: random.Random, n: int) -> list:
+    """Directed family: one publisher with subscribed receivers in two or three peer contexts (and locally); while it
+    publishes, ONE of the peers closes its connection.  Every receiver of the other contexts must still get every
+    publication, once and in order (the dropped context's receivers are excused from the moment the drop begins)."""
+    out = []
+    for i in range(n):
+        three = rng.random() < 0.7
+        ctxs = ["P", "PA", "B"] if three else ["P", "PA"]
+        links = [["PA", "P"]] + ([["B", "P"]] if three else [])
+        if rng.random() < 0.3:
+            links.append(["P", "PA"])
+        rcvs = ["PA", "B", "P", "PA", "B"][: rng.randint(3, 5)] if three else ["PA", "P", "PA"]
+        sg = rng.choice(SIGS)
+        presub = [[r, "P", "pm1", sg, rng.choice([0, 1, 2, 3]) if rcvs[r] == "P" else rng.choice([0, 2, 3])] for r in range(len(rcvs))]
+        presub = [x for x in presub if not (x[4] == 1 and rcvs[x[0]] != "P")]
+        spec = {"ctxs": ctxs, "pubs": [["P", "pm1"]], "kinds": {}, "rcvs": rcvs, "links": links, "threads": [], "presub": presub,
+                "bursts": {"P.pm1": [sg] * rng.randint(1, 3)}, "second": {},
+                "late": {"remove": None, "drop": rng.choice([l for l in links if l[1] == "P"]), "drop_during_burst": True, "unsub": [],
+                         "burst": {"P.pm1": [sg] * rng.randint(4, 10)}},
+                "recreate": None, "policy": rng.choice(["weighted", "weighted", "pct"])}
+        out.append(spec)
+    return out
+
+
 # ---------------------------------------------------------------------------
 # running one scenario on the real code
 # ---------------------------------------------------------------------------
@@ -462,15 +486,27 @@ def run_c07(seed, spec: dict, change_points=None, trace_funcs=()):
                     if late.get("remove"):
                         (pc, pn) = late["remove"]
                         ctxs[pc].remove_rpc_object(proxies[(pc, pn)])
-                    if late.get("drop"):
+                    if late.get("drop") and not late.get("drop_during_burst"):
                         (a, b) = late["drop"]
                         ctxs[a].disconnect_from_peer(b)        # one direction only; a reverse connection stays up
                     for u in late.get("unsub", []):
                         call("unsub", *u)
                     PC.drain(w)
-                    for key, sigs in late["burst"].items():
-                        (bc, bn) = key.split(".")
-                        proxies[(bc, bn)].rpc_nonblocking.burst(items(sigs)).wait()
+                    if late.get("drop") and late.get("drop_during_burst"):
+                        # the connection goes away WHILE the publishers are at work (their worker threads publish, this
+                        # thread - the one that owns the contexts - disconnects): the other peers must not notice
+                        (a, b) = late["drop"]
+                        futs = []
+                        for key, sigs in late["burst"].items():
+                            (bc, bn) = key.split(".")
+                            futs.append(proxies[(bc, bn)].rpc_nonblocking.burst(items(sigs)))
+                        ctxs[a].disconnect_from_peer(b)
+                        for f in futs:
+                            f.wait()
+                    else:
+                        for key, sigs in late["burst"].items():
+                            (bc, bn) = key.split(".")
+                            proxies[(bc, bn)].rpc_nonblocking.burst(items(sigs)).wait()
                 except D.SchedAbort:
                     raise
                 except BaseException as e:  # noqa
@@ -1060,7 +1096,7 @@ class C07(Prop):
         "the deterministic scheduler, the simulated network and the tap layer (harness/props/pubsub_common.py)",
     ]
 
-    def _run_batch(self, ctx: Ctx, cases: list, res: Result, tag: str):
+    def _run_batch(self, ctx: Ctx, cases: list, res: Result, tag: str, refine: bool = True):
         """cases: list of (seed, spec, change_points). Runs impl, oracle, then the model driver on all logs at once."""
         from harness.props import pubsub_common as PC
         drv = LeanDriver(self.driver)
@@ -1099,6 +1135,8 @@ class C07(Prop):
                     res.failures.append(Failure(f"C07:{clause}", f"seed={seed} policy={spec['policy']}: {detail}",
                                                 {"kind": "c07", **_case_of(seed, small, cps), "clause": clause}))
             if out.deadlock or out.budget or out.error is not None:
+                continue
+            if not refine:        # oracle only (the model's disconnect is an action of the scenario's main thread)
                 continue
             spans.append((len(all_lines), tr, case))
             all_lines += ["init"] + tr.lines
@@ -1177,6 +1215,12 @@ class C07(Prop):
             if [f for f in res.failures if known_match("C07", f.signature) is None] or \
                     sum(1 for b in res.broken if b.stage == "correspondence") >= 3:
                 res.extra["random_scenarios_cut_short_after"] = i + step
+                break
+        # directed family: a peer leaves while the publisher is publishing to several peers
+        fo = [(ctx.rng.randrange(1 << 30), sp, None) for sp in fanout_drop_specs(ctx.rng, ctx.scale(120, 1200))]
+        for i in range(0, len(fo), step):
+            self._run_batch(ctx, fo[i:i + step], res, "fanout-drop", refine=False)
+            if [f for f in res.failures if known_match("C07", f.signature) is None]:
                 break
         self._limits(ctx, res, ctx.scale(6, 40))
         return res
